@@ -12,7 +12,7 @@ Mode == IOEnv.MODE
 
 Dets == CASE Mode = "C05" -> C05Detectors [] Mode = "C06" -> C06Detectors
           [] Mode = "C07" -> C07Detectors [] Mode = "C08" -> C08Detectors
-          [] OTHER -> C05Detectors \cup C06Detectors \cup C07Detectors \cup C08Detectors
+          [] OTHER -> C05Detectors \cup C06Detectors \cup C07Detectors \cup C08Detectors \cup LineOnlyDetectors
 
 VARIABLES l, bad, exercised, inconsistent
 vars == <<l, bad, exercised, inconsistent>>
